@@ -275,3 +275,28 @@ impl Run {
 pub fn f64_bits_json(x: f64) -> Value {
     json!({"v": x, "bits": format!("{:016x}", x.to_bits())})
 }
+
+// ------------------------------------------------------------------------------------------
+// logging as part of the environment: with a logger installed and the level raised, the crate's
+// log statements evaluate and format their arguments
+
+struct SinkLogger;
+impl log::Log for SinkLogger {
+    fn enabled(&self, _: &log::Metadata) -> bool {
+        true
+    }
+    fn log(&self, record: &log::Record) {
+        let _ = format!("{}", record.args());
+    }
+    fn flush(&self) {}
+}
+static SINK: SinkLogger = SinkLogger;
+
+/// Switch the crate's log statements on (every level, formatted and discarded) or off.
+pub fn logging(on: bool) {
+    static INIT: std::sync::Once = std::sync::Once::new();
+    INIT.call_once(|| {
+        let _ = log::set_logger(&SINK);
+    });
+    log::set_max_level(if on { log::LevelFilter::Trace } else { log::LevelFilter::Off });
+}
